@@ -249,10 +249,14 @@ class SessionWorld:
             return self.sids[ck[1] - 1].split('/', 1)[0] + '/' + R.who_of(ip, agent)
         raise ValueError(ck)
 
-    def request(self, ip, agent, ck, op):
-        """One request; op: "r" read | "w" store a marker | "x" expire.  -> trace line"""
+    def request(self, ip, agent, ck, op, xh=('none', 'none')):
+        """One request; op: "r" read | "w" store a marker | "x" expire; xh = (name, address
+        named) of a further client-controlled header.  -> trace line"""
         val = self.cookie_value(ip, agent, ck)
         hdrs = [('Host', 'example.com'), ('User-Agent', R.AGENTS[agent])]
+        extra = R.extra_header(xh[0], xh[1])
+        if extra:
+            hdrs.append(extra)
         if val is not None:
             hdrs.append(('Cookie', '%s=%s' % (self.name, val)))
         req, res = make_request(hdrs, ip=R.IPS[ip])
@@ -284,14 +288,14 @@ class SessionWorld:
         elif op == 'x':
             sess.expire()
         return {'ip': ip, 'agent': agent, 'ck': pres, 'fk': ck[0], 'sid': idx, 'data': data,
-                'w': mark, 'x': 1 if op == 'x' else 0}
+                'w': mark, 'x': 1 if op == 'x' else 0, 'xh': xh[0], 'xa': xh[1]}
 
 
 # ---------------------------------------------------------------------------
 # Virtual hosts
 
 def run_vhost(case):
-    """case: dict(trusted, remote, xfh, host) -> trace line"""
+    """case: dict(trusted, remote, rpre, rpost, xfh, host) -> trace line"""
     from circuits.web.dispatchers import VirtualHosts
 
     def once(with_header):
@@ -300,7 +304,7 @@ def run_vhost(case):
         hdrs = [('Host', R.host_header(case['host']))]
         if with_header:
             hdrs.append(('X-Forwarded-Host', R.xfh_header(case['xfh'])))
-        req, res = make_request(hdrs, ip=R.REMOTES[case['remote']], path='/page')
+        req, res = make_request(hdrs, ip=R.remote_text(case['remote'], case['rpre'], case['rpost']), path='/page')
         vh._on_request(None, req, res)
         return req.path
 
